@@ -558,6 +558,27 @@ def targeted_append_family():
     return [(tg, Prog(p)) for tg, p in progs]
 
 
+def targeted_outer_join_family():
+    """a column derived on the left input whose expression is not NULL on an all-NULL row (coalesce, case, constant), then an outer
+    join, then a consumer of that column: the column must be computed BEFORE the join (unmatched right rows see NULL, not the
+    expression's value on NULLs)"""
+    tn, un = CFG["t"], CFG["u"]
+    b = C("b")
+    derives = {"coalesce": b.coalesce(1), "case": Case((b > 0, 1), (True, 2)), "const": L(5), "coalesce-sum": b.coalesce(0) + 1}
+    out = []
+    for dn, de in derives.items():
+        for side in ("full", "right", "left"):
+            head = [From(tn), Select("a", "b"), Derive(q=de), Join(un, "==a", side=side)]
+            out += [
+                (f"outer:{dn}:{side}:agg", Prog(head + [Aggregate(s=Fn("sum", C("q")), n=Fn("count", C("q")))])),
+                (f"outer:{dn}:{side}:group", Prog(head + [Group([C(f"{un}.a")], Aggregate(s=Fn("sum", C("q"))))])),
+                (f"outer:{dn}:{side}:select", Prog(head + [Select("q", f"{un}.b")])),
+                (f"outer:{dn}:{side}:filter", Prog(head + [Filter(C("q") > 0), Select("q", f"{un}.a")])),
+                (f"outer:{dn}:{side}:plain", Prog(head)),
+            ]
+    return out
+
+
 def family_c01(tier, seed):
     """quick: all pipelines of <=2 templates on both heads + a seed-rotated slice of length 3;
     thorough: all of length <=3 on the explicit-column head, <=2 on the wildcard head, plus a slice of length 4"""
@@ -574,7 +595,7 @@ def family_c01(tier, seed):
         rr.shuffle(l2)
         rr.shuffle(l3)
         l2, l3 = l2[:300], l3[:150]
-    out += l2 + l3 + targeted_let_family() + targeted_distinct_family() + targeted_group_take_family() + targeted_takes_family() + targeted_setop_family() + targeted_shadow_family() + targeted_append_family()
+    out += l2 + l3 + targeted_let_family() + targeted_distinct_family() + targeted_group_take_family() + targeted_takes_family() + targeted_setop_family() + targeted_shadow_family() + targeted_append_family() + targeted_outer_join_family()
     out += list(enumerate_family(1 if tier == "quick" else 2, heads=("lit",)))
     out += list(enumerate_family(1 if tier == "quick" else 2, heads=("alias", "alias_wild")))
     if tier == "quick":
